@@ -115,7 +115,8 @@ def check(case, rec):
         arg = list(tabs) if case["entry"] == "function" else list(tabs[1:])
         held = list(arg)
         if case["entry"] == "function":
-            r = biom.concat(arg, axis=axis)
+            r = biom.concat(arg, axis) if case.get("positional") else \
+                biom.concat(arg, axis=axis)
         elif case.get("positional"):
             r = tabs[0].concat(arg, axis)
         else:
